@@ -224,20 +224,55 @@ def r3(ctx, e, d):
         loops = f.natural_loops()
         return {h for h in loops if sw.id in loops[h]} | {sw.id}
     eb, db = barriers(e, esw), barriers(d, dsw)
-    # flags
-    def flagnames(f):
-        names = []
-        for want in ('type_long', 'type_longlong'):
-            names.append(want)
-        return names
-    ef, df = flagnames(e), flagnames(d)
+    # the two length-modifier flags, by role rather than by name: booleans (every store is a constant) of which the first is
+    # raised by an 'l' seen with all flags clear, the second by an 'l' seen with the first one set
+    def flagnames(f, tg, barrier):
+        cand = set()
+        for ev in f.events('STORE'):
+            l = unwrap(ev.lhs)
+            if l.get('k') == 'var' and l.get('sc') == 'l':
+                cand.add(l['n'])
+        for ev in f.events('STORE'):
+            l = unwrap(ev.lhs)
+            if l.get('k') == 'var' and l['n'] in cand and (ev.d['op'] != '=' or cval(unwrap(ev.rhs)) is None):
+                cand.discard(l['n'])
+        if 'l' not in tg:
+            raise AnalysisBroken('%s: no case for the l modifier' % f.name)
+
+        # 'l' raises the first flag at once (in the block the case label starts) and the second one only when another 'l' follows
+        visits, _t = abstract_run(f, {}, tracked=set(), start=tg['l'], barrier=barrier)
+        ups = [(ev.blk, estr(ev.lhs)) for (ev, _e) in visits if ev.kind == 'STORE' and estr(ev.lhs) in cand and cval(unwrap(ev.rhs)) not in (0, None)]
+        lng = {n for (b, n) in ups if b == tg['l']}
+        sec = {n for (b, n) in ups if b != tg['l']} - lng
+        if len(lng) != 1 or len(sec) != 1:
+            raise AnalysisBroken('%s: the l modifier raises %s at once and %s conditionally (expected one flag each)' % (f.name, sorted(lng), sorted(sec)))
+        return [lng.pop(), sec.pop()]
+
+    def index_cursor(f, base):
+        # the variable that indexes the parameter `base`
+        names = set()
+        for ev in f.events():
+            for root in (ev.e, ev.lhs, ev.rhs):
+                if root is None:
+                    continue
+                for n in walk(root):
+                    if n.get('k') == 'idx' and estr(n['b']) == base and unwrap(n['i']).get('k') == 'var':
+                        names.add(unwrap(n['i'])['n'])
+        if len(names) != 1:
+            raise AnalysisBroken('%s: %s is indexed by %s (expected one cursor)' % (f.name, base, sorted(names)))
+        return names.pop()
+    ef, df = flagnames(e, ec, eb), flagnames(d, dc, db)
+    ecur = index_cursor(e, e.params[0]['n'])        # where the encoder appends
+    dcur = index_cursor(d, d.params[2]['n'])        # where the decoder consumes
     FLAGS = set("#- +'I.0123456789*lztj")
     convs = [c for c in sorted(set(ec) & set(dc)) if c not in FLAGS]
     if len(convs) < 10:
         raise AnalysisBroken('only %d conversions found' % len(convs))
     for c in convs:
-        em = _moves(e, ec[c], 'location', ef, eb)
-        dm = _moves(d, dc[c], 'data_pos', df, db)
+        em = _moves(e, ec[c], ecur, ef, eb)
+        dm = _moves(d, dc[c], dcur, df, db)
+        if not any(v[0] or v[1] for v in em.values()) and c != '%':
+            raise AnalysisBroken('encoder: %%%s appends nothing (cursor %s not recognised?)' % (c, ecur))
         bad = []
         for k in em:
             einc, estrm = em[k]
@@ -254,16 +289,20 @@ def r3(ctx, e, d):
                   'for %%%s encoder and decoder disagree: %s' % (c, '; '.join(bad)))
     # the '*' width argument
     if '*' in ec and '*' in dc:
-        em = _moves(e, ec['*'], 'location', ef, eb)
-        dm = _moves(d, dc['*'], 'data_pos', df, db)
+        em = _moves(e, ec['*'], ecur, ef, eb)
+        dm = _moves(d, dc['*'], dcur, df, db)
         ok = em[(0, 0)] == dm[(0, 0)]
         ctx.check('R3', 'bytes-agree:*', ok, e, 'the * width argument is stored and consumed as the same number of bytes', 'the * width argument: %s vs %s' % (em[(0, 0)], dm[(0, 0)]))
     # both sides advance the format past a finished conversion
     for (f, sw, tg) in ((e, esw, ec), (d, dsw, dc)):
         notadv = []
+        fr = root_var(sw.cond)
+        if fr is None:
+            raise AnalysisBroken('%s: the switch is not on a format cursor' % f.name)
+        fcur = fr['n']
         for c in convs:
             visits, _t = abstract_run(f, {}, tracked=set(), start=tg[c], barrier={h for h in f.natural_loops() if sw.id in f.natural_loops()[h]})
-            adv = any(ev.kind == 'STORE' and estr(ev.lhs) == 'format' and ev.d['op'] in ('++', '+=', '=') for (ev, _env) in visits)
+            adv = any(ev.kind == 'STORE' and estr(ev.lhs) == fcur and ev.d['op'] in ('++', '+=', '=') for (ev, _env) in visits)
             if not adv and f is e and c in ('c', 's', 'p'):
                 # the encoder leaves the conversion letter to strchrnul(): harmless because none of them is '%'
                 continue
@@ -275,8 +314,7 @@ def r3(ctx, e, d):
 
 def r4(ctx, e, d):
     """upward-exposed uses in the directive loop"""
-    for (f, cursors) in ((e, {'format', 'location', 'ap', 'p', 'serialize', 'max_len', 'fmt', 'qb_xc'}),
-                         (d, {'format', 'location', 'data_pos', 'p', 'string', 'str_len', 'buf', 'fmt', 'len'})):
+    for f in (e, d):
         loops = f.natural_loops()
         sw = _switch_block(f)
         outer = [h for h in loops if sw.id in loops[h]]
@@ -292,7 +330,20 @@ def r4(ctx, e, d):
                     assigned.setdefault(unwrap(ev.lhs)['n'], []).append(ev)
         exposed = set()
         for v in assigned:
-            if v in cursors:
+            # a cursor (input position, output position) is legitimately carried: it is only ever advanced in the loop,
+            # never set.  Anything that is *set* by one directive is per-directive state.
+            def mentions(rhs, name):
+                return rhs is not None and any(n.get('k') == 'var' and n['n'] == name for n in walk(rhs))
+
+            def advance(ev, v=v):
+                if ev.d['op'] in ('++', '+=', '--', '-='):
+                    return True
+                # v = g(v), or v = w with every in-loop definition of w computed from v  (format = p; p = strchrnul(format, '%'))
+                if ev.d['op'] == '=' and mentions(ev.rhs, v):
+                    return True
+                ws = [n['n'] for n in walk(ev.rhs) if n.get('k') == 'var'] if ev.rhs is not None else []
+                return ev.d['op'] == '=' and bool(ws) and all(w in assigned and all(mentions(x.rhs, v) for x in assigned[w]) for w in ws)
+            if all(advance(ev) for ev in assigned[v]):
                 continue
             # is there a read of v in the body reachable from the loop head without passing a plain assignment of v?
             def is_kill(ev, v=v):
